@@ -252,6 +252,10 @@ class TDS(BaseRoutine):
         # if `dae.n == 1`, `calc_h_first` depends on new `dae.gy`
         self.calc_h()
 
+        # `calc_h` advanced the CSV row pointer; the first step replays the first row
+        if self.data_csv is not None:
+            self.k_csv = 0
+
         # allocate for internal variables
         self.x0 = np.zeros_like(system.dae.x)
         self.y0 = np.zeros_like(system.dae.y)
